@@ -172,7 +172,9 @@ impl Vm {
             || proc.is_symbol_str("λ")
             || (proc.is_symbol_str("define") && rest.car().is_some_and(|head| head.is_pair()));
         if has_body && rest.is_list() {
-            v.push(self.transform(rest.car().unwrap())?);
+            // the formals name variables: they are not an expression to expand, whatever
+            // derived form a parameter happens to be named like
+            v.push(rest.car().unwrap().clone());
             for form in self.splice_body(rest.cdr().unwrap())? {
                 v.push(self.transform(&form)?);
             }
